@@ -3,27 +3,44 @@
 From Coq Require Import ZArith NArith String List Bool. Import ListNotations.
 From TP Require Export Check.C05chk.
 
-Definition dambiguous (c : dcase) : bool :=
+(* the keep_undefined the documented reading uses at EVERY level of the document: the explicit one, or for the
+   default (None) what Deserializer.deserialize makes of it for the target class (C06_keep_undefined_adjustment) *)
+Definition dku (c : dcase) : option bool :=
   match dc_ku c with
+  | Some b => Some b
+  | None => match find_class (dc_env c) (dc_cls c) with
+            | Some cl => Some (adjust_keep_undefined cl None)
+            | None => None
+            end
+  end.
+
+Definition dspec6 (c : dcase) : res pyval :=
+  match dku c with
+  | Some b => spec_deser (tbl_match (dc_tbl c)) (dc_env c) (dc_ens c) (dc_flags c) FUEL b (dc_cls c) (dc_doc c)
+  | None => Raise Unmodelled
+  end.
+
+Definition dambiguous (c : dcase) : bool :=
+  match dku c with
   | Some b => doc_ambiguous (tbl_match (dc_tbl c)) (dc_env c) (dc_ens c) (dc_flags c) FUEL b (dc_cls c) (dc_doc c)
   | None => true
   end.
 
 (* the spec declines: the model of the constructor declines, or the reading is ambiguous *)
-Definition dspec_declines6 (c : dcase) : bool := dspec_declines c || dambiguous c.
+Definition dspec_declines6 (c : dcase) : bool := declines (dspec6 c) || dambiguous c.
 
 (* the error-class clause is judged on every observation; the agreement clause where the reading is unambiguous *)
 Definition dspec_fail6 (c : dcase) : bool :=
-  dbadexn c || (negb (dspec_declines6 c) && negb (res_equiv_tv (dspec c) (dc_obs c))).
+  dbadexn c || (negb (dspec_declines6 c) && negb (res_equiv_tv (dspec6 c) (dc_obs c))).
 
 Definition dmodels_differ6 (c : dcase) : bool :=
-  negb (dspec_declines6 c) && negb (dunmodelled c) && negb (res_equiv_tv (dspec c) (dmodel c)).
+  negb (dspec_declines6 c) && negb (dunmodelled c) && negb (res_equiv_tv (dspec6 c) (dmodel c)).
 
 (* everything the harness asks about a case, computed in one pass (the two models are evaluated once):
    bit 0 dmismatch, 1 dunmodelled, 2 dspec_fail6, 3 dspec_declines6, 4 dmodels_differ6, 5 dbadexn, 6 dambiguous *)
 Definition dsummary (c : dcase) : N :=
   let m := dmodel c in
-  let s := dspec c in
+  let s := dspec6 c in
   let a := dambiguous c in
   let unmod := declines m in
   let decl := declines s || a in
